@@ -26,7 +26,8 @@ META = dict(
 
 EXTRA = ["by_cref(Wrap(%d))", "by_value(Wrap(%d))", "pr(by_cref(Wrap(%d)) + by_cref(Wrap(%d)))", "var u%d = make_up(%d); pr(u%d.get())", "var w%d = owned_ref(); w%d.set(%d)", "var &q%d = owned_ref(); pr(q%d.get())",
          "def g%d() { by_cref(Wrap(%d)); return T(%d) }; var z%d = g%d()", "var m%d = [\"k\": T(%d)]; pr(m%d[\"k\"].get())", "pr(nosuch%d)", "var p%d = Pair(T(%d), T(%d))" if False else "pr(T(%d).get() + T(%d).get())",
-         "var vv%d = [T(%d), T(%d)]; vv%d.pop_back(); vv%d.clear()", "var s%d = T(%d); s%d = T(%d)", "var c%d = bind(fun(x) { x.get() }, T(%d)); pr(c%d())"]
+         "var vv%d = [T(%d), T(%d)]; vv%d.pop_back(); vv%d.clear()", "var lf%d = fun() { 0 }; for (var i = 0; i < 3; ++i) { lf%d = fun[i]() { i } }; pr(lf%d())",
+         "var lg%d = fun() { 0 }; for (var i = 0; i < 3; ++i) { var tt = T(%d); lg%d = fun[i, tt]() { i + tt.get() } }; pr(lg%d()); pr(lg%d())", "var s%d = T(%d); s%d = T(%d)", "var c%d = bind(fun(x) { x.get() }, T(%d)); pr(c%d())"]
 
 
 def strip900(s):
@@ -87,7 +88,8 @@ def run(ctx):
             adds.append(tpl % tuple([j] * k))
         extra.append((t + "try { " + "; ".join(adds) + " } catch(e) { }; " + "; ".join(adds[:1]), fa if rng.chance(1, 2) else rng.below(4)))
     with ctx.timer("impl"):
-        out2, r2 = C.run_harness_resilient(exe, [], ["%d %s" % (fa, t.encode().hex()) for t, fa in extra], timeout=1800 if not thorough else 7200, stall=120)
+        out2, r2 = C.run_harness_resilient(exe, [], ["%d %s" % (fa, t.encode().hex()) for t, fa in extra], timeout=1800 if not thorough else 7200, stall=120,
+                                           env={"ASAN_OPTIONS": "detect_leaks=0:allocator_may_return_null=1:abort_on_error=0:detect_stack_use_after_return=1"})
     ctx.cov["harness_restarts"] = r1 + r2
     nt = set()
     for (t, fa), o in zip(extra, out2):
